@@ -51,4 +51,20 @@ PROPS = {
         "trusted": COMMON_TRUST + ["Go's encoding/base64 (BigEndianEncoding, bcrypt.Encoding) is stdlib and only observed"],
         "assumptions": ["EncodedLen/DecodedLen arithmetic is modelled over Nat (no int overflow for inputs below 2^60 bytes)"],
     },
+    "C17": {
+        "suites": ["stream"],
+        "level": "proof",
+        "technique": "Lean 4 proof (state-machine invariants over arbitrary chunkings, reader scripts and writer fault scripts; induction over the operation list) + Go/Lean correspondence with scripted io.Writer/io.Reader faults",
+        "claim": "Kernel-checked for ALL chunkings, ALL writer fault scripts and ALL reader fragmentations (short reads, embedded newlines, zero-length reads, data delivered together with EOF or an error) and all caller buffer sizes ≥ 1: "
+                 "encoder+Close = one-shot Encode; under a writer fault the bytes written are a prefix of the one-shot encoding, the failing call returns the error and every later Write/Close returns it; "
+                 "the decoder delivers exactly the one-shot decoding and then the reader's error (EOF stays EOF), never a (0, nil) read. Model functions are total, so nothing panics in the model. "
+                 "The state machines (Write/Close/Read/newline filter) are hand-modelled and tied to base64le.go by differential runs incl. exhaustive compositions of short data and faults at every underlying call index.",
+        "note": "Trusted: the scripted reader/writer are well-behaved io.Reader/io.Writer (a reader that returns (0,nil) forever makes the Go decoder spin; outside the property); model↔code tie is differential.",
+        "rule": "stream: all compositions of data of length ≤ 7 (quick) / ≤ 9 (thorough) in two padding modes; writer faults (error only / partial write + error) at every underlying call index 0..3 for data ≤ 6; "
+                "random chunkings of data up to 5000 bytes (768-byte interior path) with random faults; decoder: random fragmentations with zero-length reads, embedded newlines (incl. runs of 37..1500 newlines), "
+                "data+EOF, data+error, sticky non-EOF errors, caller buffers 1..4096; each run checked on Go directly against one-shot Encode/Decode and diffed with the Lean state machines; "
+                "non-trivial/distinct = distinct compositions / random runs",
+        "trusted": COMMON_TRUST,
+        "assumptions": ["underlying writer/reader follow the io contracts (accept-all or fail; data never longer than requested)"],
+    },
 }
